@@ -105,8 +105,9 @@ func (c Case) writeFails() []int {
 
 func (c Case) foreignSameLen() bool { return shardLen(c.OtherSize, c.D) == shardLen(c.Size, c.D) }
 
-// absent: the reader gets no bytes (and so no metadata) for this shard.
-func absent(d Dmg) bool { return d.Kind == Missing || d.Kind == WFail }
+// absent: the reader gets no usable bytes (and so no metadata) for this shard. Since the fix
+// 6ce493d2 a file shorter than the 17-byte metadata is treated exactly like an unreadable one.
+func absent(d Dmg) bool { return d.Kind == Missing || d.Kind == WFail || d.Kind == TruncLow }
 
 // payloadAltered: the shard is present with 17 metadata bytes, but its payload is not the
 // one that was written (so the set no longer verifies).
@@ -132,7 +133,7 @@ func (c Case) firstPresent() int {
 
 const (
 	slugEmpty     = "empty-blob"
-	slugShort     = "short-shard-panic"
+	slugShort     = "short-shard-panic" // fixed in /repo (6ce493d2): never excluded, regression test always on
 	slugUnequal   = "unequal-shard-length"
 	slugForeign   = "foreign-shard"
 	slugTwin      = "consistent-corruption-undetected"
@@ -142,7 +143,6 @@ const (
 	slugMetaNoFix = "metadata-damage-not-repaired" // C26
 )
 
-func (c Case) hitsShort() bool { return c.count(func(d Dmg) bool { return d.Kind == TruncLow }) > 0 }
 func (c Case) hitsUnequal() bool {
 	return c.count(func(d Dmg) bool { return d.Kind == TruncHigh }) > 0
 }
@@ -159,7 +159,7 @@ func (c Case) anyUnequalLen() bool { return c.count(c.unequalLen) > 0 }
 // taken when fewer than d non-empty shards remain, where the read fails cleanly.)
 func (c Case) hitsNilMeta() bool {
 	a := c.count(absent)
-	return a >= 1 && c.count(c.payloadAltered) >= 1 && c.N()-a >= c.D && !c.hitsShort() && !c.anyUnequalLen() &&
+	return a >= 1 && c.count(c.payloadAltered) >= 1 && c.N()-a >= c.D && !c.anyUnequalLen() &&
 		!c.hitsConsistentWrong()
 }
 
@@ -193,7 +193,7 @@ func rsEncode(enc reedsolomon.Encoder, blob []byte) [][]byte {
 // the oracle). A shard cut to its metadata keeps the set from verifying, so it is not in
 // this class.
 func (c Case) hitsConsistentWrong() bool {
-	if c.Size == 0 || c.hitsShort() || c.anyUnequalLen() || c.count(func(d Dmg) bool { return d.Kind == TruncMeta }) > 0 {
+	if c.Size == 0 || c.anyUnequalLen() || c.count(func(d Dmg) bool { return d.Kind == TruncMeta }) > 0 {
 		return false
 	}
 	if c.Twin == nil && c.count(func(d Dmg) bool { return d.Kind == FlipPayload || d.Kind == Foreign }) == 0 {
@@ -221,7 +221,7 @@ func (c Case) hitsConsistentWrong() bool {
 	present := 0
 	for i, dm := range c.Damage {
 		switch dm.Kind {
-		case Missing, WFail:
+		case Missing, WFail, TruncLow:
 			cur[i] = nil
 		case FlipPayload:
 			cur[i][dm.Off] ^= byte(dm.Mask)
@@ -292,14 +292,6 @@ func normalise(c *Case, rec *stats.Rec) {
 		}
 		c.Twin = nil
 		return
-	}
-	if c.hitsShort() && stats.Known("C25", slugShort) {
-		rec.Exclude(slugShort)
-		for i, d := range c.Damage {
-			if d.Kind == TruncLow {
-				c.Damage[i] = Dmg{Kind: Missing}
-			}
-		}
 	}
 	if c.hitsUnequal() && stats.Known("C25", slugUnequal) {
 		rec.Exclude(slugUnequal)
